@@ -498,5 +498,27 @@ def replay(ctx, data):
             ctx.fail(case_dict(ks, case.get("sib_seed"), why), why)
         if exp is not None:
             ctx.coq_cases("replay", HEADER, [("c09_case_or %s %s (%s)" % (coq_path(ks), values.to_coq(obj1), core.sx(exp)), exp, case)])
+    elif "obj" in case and "keys" in case:
+        import ast
+        from deepdiff import extract
+        from deepdiff.path import stringify_path
+        obj = ast.literal_eval(case["obj"])
+        ks = [key_unjson(j) for j in case["keys"]]
+        pos = [a for _t, a in ks]
+        p = stringify_path(pos, root_element=("root", "GET"))
+        cur = values.get_at(obj, pos)
+        ctx.seen(("replay", repr(ks)), nontrivial=True)
+        try:
+            got = extract(obj, p)
+            good = got is cur or (type(got) is type(cur) and values.typed_eq(got, cur))
+            ex = ["Some", canon_val(got)]
+        except Exception as e:
+            got, good, ex = "%s: %s" % (type(e).__name__, e), False, None
+        print("replay: obj=%r path=%r extract=%r expected=%r" % (obj, p, got, cur))
+        if not good:
+            why = "extract(obj, %r) does not return the object at %r" % (p, pos)
+            ctx.fail(dict(case, failure=why), why)
+        ctx.coq_cases("replay", HEADER, [("c09_extract_case %s %s" % (values.to_coq(obj), coq_path(ks)),
+                                          [p, ex, ["Some", values.canon(cur)]], case)])
     else:
         run(ctx)
